@@ -357,6 +357,8 @@ def _aff_of(v):
     if isinstance(v, Aff):
         return v
     if isinstance(v, Const) and isinstance(v.value, (int, float)) and not isinstance(v.value, bool):
+        if isinstance(v.value, float) and (v.value != v.value or v.value in (float('inf'), float('-inf'))):
+            return None         # nan / infinities are not rational constants
         return Aff(0, Fraction(v.value), 'num')
     return None
 
@@ -1282,6 +1284,42 @@ def call_builtin(interp, name, args, kwargs):
             if len(b.coeffs) == 1 and list(b.coeffs.values())[0] == 1 and b.const.denominator == 1:
                 return Aff({'floor:' + list(b.coeffs)[0]: 1}, b.const, 'int')
         return Atom('timegm', [b], 'int')
+    if short == 'relativedelta' and name.startswith('dateutil') and len(args) == 2 and not kwargs and is_dt_record(args[0]) and is_dt_record(args[1]):
+        # dateutil.relativedelta(later, earlier) on component records (the third-party algorithm, for later >= earlier and equal
+        # times of day): whole months = 12*(y1-y2) + (m1-m2), minus one when  earlier + those months  - whose day is clamped to
+        # the length of the target month - lies after later, i.e. when  d1 < min(d2, length of month m1 of year y1)
+        import calendar as _cal
+        later, earlier = args
+        m1, m2 = later.attrs.get('month'), earlier.attrs.get('month')
+        if not (isinstance(m1, Const) and isinstance(m2, Const)):
+            raise Unmodelled('relativedelta with symbolic months')
+        # only under an established  earlier < later  (the decision the caller took on the two date symbols)
+        ns_, nl_ = getattr(earlier.attrs.get('<sym>'), 'name', None), getattr(later.attrs.get('<sym>'), 'name', None)
+        ordered = any(alt is True and isinstance(s_, Atom) and s_.op in ('lt', 'le') and
+                      [getattr(a_, 'name', None) for a_ in s_.args] == [ns_, nl_] for (t_, alt, s_) in interp.state.notes) or \
+            any(alt is True and isinstance(s_, Atom) and s_.op in ('gt', 'ge') and
+                [getattr(a_, 'name', None) for a_ in s_.args] == [nl_, ns_] for (t_, alt, s_) in interp.state.notes)
+        if ns_ is None or nl_ is None or not ordered:
+            raise Unmodelled('relativedelta of two dates whose order is not established')
+        d1, d2 = later.attrs['day'], earlier.attrs['day']
+        if m1.value == 2:
+            y1 = later.attrs['year']
+            if isinstance(y1, Const) and isinstance(y1.value, int):
+                ml = 29 if _cal.isleap(y1.value) else 28
+            else:
+                ml = 29 if interp.decide('%r is a leap year' % (y1,), [False, True], ('leap', repr(y1))) else 28
+        else:
+            ml = _cal.monthrange(2001, m1.value)[1]
+        borrow = 0
+        if interp.truth(rich_compare(interp, 'lt', d1, d2, 'relativedelta: day of the later date before the day of the earlier'), 'relativedelta day'):
+            if interp.truth(rich_compare(interp, 'lt', d1, Const(ml), 'relativedelta: later date not at the end of its month'), 'relativedelta month end'):
+                borrow = 1
+        c = m1.value - m2.value - borrow
+        ydiff = arith(interp, 'sub', later.attrs['year'], earlier.attrs['year'])
+        years = arith(interp, 'add', ydiff, Const(c // 12))
+        rd = Obj(ClassV(None, ast.ClassDef(name='relativedelta', bases=[], keywords=[], body=[], decorator_list=[])),
+                 {'years': years, 'months': Const(c % 12)})
+        return rd
     if name in ('calendar.isleap', 'calendar.monthrange'):
         import calendar as _cal
         y = args[0]
